@@ -15,7 +15,9 @@ RULE = ("enums with 0-8 variants x kinds x 0-3 tuple fields of pairwise distinct
 ASSUMPTIONS = ["method names are pairwise distinct (the corpus avoids identifiers that snake-case to the same name)"]
 
 IDS = ["Red", "GreenApple", "HTTPServer", "Utf8String", "X", "Abc_def", "A1b2", "XMLHttpRequest2", "Id", "IOError", "Blue2Go", "V10",
-       "Http2_Proxy", "Z9", "QRCode", "Wi5Fi77", "r#type", "r#Match", "r#loop_Forever2"]
+       "Http2_Proxy", "Z9", "QRCode", "Wi5Fi77", "r#type", "r#Match", "r#loop_Forever2",
+       # non-ASCII identifiers: the method names come from the Rust reference on heck (genprobe `snakifyu`), not from the ASCII model
+       "Öl2", "Über9Mensch", "Café3", "ÉlanVital", "straßeName7x"]
 TYSETS = [[], ["u8"], ["String"], ["i32", "bool"], ["String", "u8", "usize"], ["bool", "i32"], ["Option<u8>"]]
 
 
@@ -52,11 +54,39 @@ def build_corpus(tier, rng):
     items.append(("lifetime", Item("E", [Variant("Borrowed", "tuple", [Field("&'l0 str"), Field("u8")]), Variant("Owned", "tuple", [Field("String")]),
                                         Variant("Nothing", "unit")], lifetimes=1)))
     names = G.model_query(ID, [it for _, it in items], [("is", ["names"]), ("tryas", ["names"]), ("is", ["allnames"])])
+    # identifiers outside the model's domain: their snake names are taken from the Rust reference
+    uni = sorted({v.ident for _, it in items for v in it.variants if not v.ident.isascii()})
+    ref_snake = {}
+    if uni:
+        from vlib import run as R_
+        import os as os_
+        binp, err = R_.build_genprobe()
+        if binp is None:
+            raise RuntimeError("genprobe does not build: " + str(err))
+        obs, _ = R_.run_genprobe(binp, ["snakifyu %d %s" % (n, G.hx(u)) for n, u in enumerate(uni)], os_.path.join(R_.WORK, ID, "names"))
+        for n, u in enumerate(uni):
+            parts = dict(p.split("=", 1) for p in obs.get(n, "").split("|") if "=" in p)
+            ref_snake[u] = bytes.fromhex(parts["ref"][1:]).decode("utf-8")
+
+    def fix(namelist, it, only):
+        """replace the model's (ASCII) snake name of the selected variants by the reference one"""
+        sel = [v for v in it.variants if only(v)]
+        out = []
+        for name, v in zip(namelist, sel):
+            if not v.ident.isascii():
+                pre = "is_" if name.startswith("is_") else ("try_as_" if name.startswith("try_as_") else "")
+                name = pre + ref_snake[v.ident]
+            out.append(name)
+        return out
     for (fam, it), (isn, tan, alln) in zip(items, names):
         if isn.startswith("generr") or tan.startswith("generr"):
             continue
         is_names = [x for x in isn.strip("[]").split(";") if x]
         ta = [x for x in tan.strip("[]").split(";") if x]
+        is0, ta0 = is_names, ta
+        is_names = fix(is_names, it, lambda v: not v.has("disabled"))
+        ta = fix(ta, it, lambda v: v.kind == "tuple" and not v.has("disabled"))
+        rename = {a: b for a, b in list(zip(is0, is_names)) + list(zip(ta0, ta)) if a != b}
         if len(set(is_names)) != len(is_names):
             continue
         tuple_vs = [i for i, v in enumerate(it.variants) if v.kind == "tuple" and not v.has("disabled")]
@@ -72,12 +102,12 @@ def build_corpus(tier, rng):
                 vals.append((i, d, "default"))
                 vals.append((i, s, "sample"))
                 vals.append((i, [s[0]] + d[1:], "mut-of-default"))
-        snakes = [x for x in alln.strip("[]").split(";")]
+        snakes = fix([x for x in alln.strip("[]").split(";")], it, lambda v: True)
         absent_is = ["is_" + snakes[i] for i, v in enumerate(it.variants) if v.has("disabled") and "is_" + snakes[i] not in is_names]
         absent_tryas = ["try_as_" + snakes[i] for i, v in enumerate(it.variants)
                         if (v.has("disabled") or v.kind != "tuple") and "try_as_" + snakes[i] not in ta]
         k = c.add_def(it, family=fam, derives=["EnumIs", "EnumTryAs"], is_names=is_names, tryas_names=list(zip(ta, tuple_vs)), absent_is=absent_is,
-                      absent_tryas=absent_tryas,
+                      absent_tryas=absent_tryas, rename=rename,
                       vals=vals, std_derives=["Debug", "Clone", "PartialEq"], bounds="Default + Clone + PartialEq + core::fmt::Debug" if it.tparams else "")
         for j, (i, _, tag) in enumerate(vals):
             c.add_q(k, "is", [j, i], note=tag)
@@ -100,6 +130,10 @@ def compare(corpus, k, kind, args, note, iobs, mobs, cfg):
     it = corpus.defs[k]
     meta = corpus.meta[k]
     i = int(args[1])
+    if meta.get("rename"):
+        # method names of non-ASCII identifiers: the model's (ASCII) name is replaced by the reference's
+        ents = [x.split("=", 1) for x in mobs.strip("[]").split(";") if x]
+        mobs = "[" + ";".join("%s=%s" % (meta["rename"].get(a, a), b) for a, b in ents) + "]"
     if kind == "is":
         # no predicate may exist for a disabled variant: the harness's fallback trait must have answered every probe
         absent = meta.get("absent_is", [])
